@@ -229,6 +229,9 @@ var degenerateForms = []string{
 	"nm = make([]map[rune]int64, 1)\nnm[0].x = 1\nnm[0]", "nm = make([]map[byte]int64, 1)\nnm[0].x = 1", "nm = make([]map[rune]string, 1)\nnm[0].y = \"v\"\nnm[0].y", "mr = make(map[rune]int64)\nmr.x = 1\nmr.x", "st9 = make(struct { M map[rune]int64 })\nst9.M.k = 1",
 	"aa = make([][]int64, 2)\naa[0] in aa", "aa = make([][]int64, 2)\naa[0] = [1]\n[1] in aa", "ms = make([]map[string]int64, 1)\nms[0] in ms", "ms = make([]map[string]int64, 1)\n{} in ms", "fs = make([]func(), 1)\nfs[0] in fs",
 	"ss = make([]struct { A []int64 }, 2)\nss[0] in ss", "aa = make([][]int64, 1)\nswitch aa[0] { case aa[0]: 1 }", "aa = make([][]int64, 1)\naa[0] == aa[0]",
+	// an unexported field: a refused store, THEN a read (a lookup remembered by the store path must not let the read through)
+	"try { break } catch e9 { try { e9.s = \"x\" } catch err9 { }\ne9.s }", "try { break } catch e9 { try { e9.s = \"x\" } catch err9 { }\nx9 = e9.s\nx9 }", "try { hemb.npInner = 1 } catch err9 { }\nhemb.npInner",
+	"try { continue } catch e9 { try { e9.s += \"x\" } catch err9 { }\n[e9.s] }", "try { hembv.npInner = nil } catch err9 { }\nhembv.npInner\nhembs[0].npInner", "try { break } catch e9 { for i9 = 0; i9 < 3; i9++ { try { e9.s = i9 } catch err9 { }\ntry { e9.s } catch err9 { } }\ne9.s }",
 	"func rec(n) { return rec(n) }", "type T struct", "struct", "chan", "map", "len", "return 1, ", "throw", "break", "continue", "return",
 }
 
